@@ -412,7 +412,9 @@ def pool_conformance(ctx):
 
     d = core.fresh_dir("c04p")
     n = 0
-    slow = xfn.make_fn(["a", "b"], kind="num", name="f04s",
+    # (the signature lists the arguments in another order than the sorted
+    # one they are sown in)
+    slow = xfn.make_fn(["b", "a"], kind="num", name="f04s",
                        delay=("b", 0, 0.25))
     combos = {"a": [1, 2, 3], "b": [0, 1, 2, 3]}
     want = xyz.combo_runner(slow, combos, verbosity=0)
